@@ -33,7 +33,26 @@ CheckTolIO(e) ==
   ELSE IF e.eqrev # e.eq THEN "tolerance-ignore-order-asymmetric"
   ELSE "ok"
 
-Check(e) == IF e.panic # "" THEN "panic" ELSE IF e.kind = "pair" THEN CheckPair(e) ELSE IF e.kind = "tolio" THEN CheckTolIO(e) ELSE CheckTol(e)
+\* Closed curves with integer vertices (successive vertices distinct), simple or not. Simplicity is decided by
+\* Validity!LineSimple (exact segment intersection); only rings - closed and simple - may differ by the start vertex.
+V == INSTANCE Validity
+IntRot(a,b,o) == LET n == Len(a) IN \A i \in 0..(n-1) : a[i+1] = b[((i + o) % (n-1)) + 1]
+CurveEqIO(a,b) ==
+  /\ Len(a) = Len(b)
+  /\ \/ a = b \/ a = RevSeq(b)
+     \/ /\ V!LineSimple(a) /\ V!LineSimple(b)
+        /\ \E o \in 1..(Len(a)-1) : IntRot(a,b,o) \/ IntRot(RevSeq(a),b,o)
+CheckCurve(e) ==
+  LET x == e.p = e.q  y == CurveEqIO(e.p, e.q) IN
+  IF e.eq # x THEN (IF x THEN "exact-equals-misses-identical" ELSE "exact-equals-accepts-different")
+  ELSE IF e.eqrev # e.eq THEN "exact-equals-asymmetric"
+  ELSE IF e.eqio # y THEN (IF y THEN "ignore-order-misses-ring-rotation" ELSE "ignore-order-accepts-different-curve")
+  ELSE IF e.eqiorev # e.eqio THEN "ignore-order-asymmetric"
+  ELSE IF e.eqiom # y \/ e.eqiogc # y THEN "ignore-order-curve-differs-inside-collection"
+  ELSE IF ~e.eqaa \/ ~e.eqbb \/ ~e.eqioaa \/ ~e.eqiobb THEN "not-reflexive"
+  ELSE "ok"
+
+Check(e) == IF e.panic # "" THEN "panic" ELSE IF e.kind = "pair" THEN CheckPair(e) ELSE IF e.kind = "curve" THEN CheckCurve(e) ELSE IF e.kind = "tolio" THEN CheckTolIO(e) ELSE CheckTol(e)
 
 Init == sh \in 1..S /\ l = sh
 Next == /\ l <= Len(Trace) /\ l' = l + S /\ sh' = sh
